@@ -148,6 +148,22 @@ def r_C23g_C24d(root):
                     if fi.node_of(a).id not in fi.rd.defs_of(n, v): continue            # another definition reaches
                     inst += 1
                     tested = any(any(isinstance(x, ast.Name) and x.id == v for x in ast.walk(g)) for g, pol in fi.guards(risky))
+                    if not tested:
+                        # the absent case is replaced before the use:  if v is None: v = ... (or leave) -- the looked-up value reaches the use only when present
+                        def _absent(tst_):
+                            if isinstance(tst_, ast.Compare) and len(tst_.ops) == 1 and isinstance(tst_.ops[0], ast.Is) and isinstance(tst_.left, ast.Name) and tst_.left.id == v and isinstance(tst_.comparators[0], ast.Constant) and tst_.comparators[0].value is None: return True
+                            if isinstance(tst_, ast.UnaryOp) and isinstance(tst_.op, ast.Not) and isinstance(tst_.operand, ast.Name) and tst_.operand.id == v: return True
+                            return None
+                        def _present(tst_):
+                            if isinstance(tst_, ast.Compare) and len(tst_.ops) == 1 and isinstance(tst_.ops[0], ast.IsNot) and isinstance(tst_.left, ast.Name) and tst_.left.id == v and isinstance(tst_.comparators[0], ast.Constant) and tst_.comparators[0].value is None: return True
+                            return isinstance(tst_, ast.Name) and tst_.id == v
+                        def _replaces(body_):
+                            if not body_: return False
+                            if isinstance(body_[-1], (ast.Return, ast.Raise, ast.Continue, ast.Break)): return True
+                            return any(isinstance(st_, ast.Assign) and any(isinstance(tg_, ast.Name) and tg_.id == v for tg_ in st_.targets) for st_ in body_)
+                        for i_ in own_nodes(fn):
+                            if isinstance(i_, ast.If) and a.lineno < i_.lineno and getattr(i_, "end_lineno", i_.lineno) < risky.lineno and not any(x is i_ for x in ancestors(risky)) and any(x is getattr(i_, "_parent", None) for x in [getattr(a, "_parent", None)] + list(ancestors(risky))):
+                                if (_absent(i_.test) and _replaces(i_.body)) or (_present(i_.test) and _replaces(i_.orelse)): tested = True
                     ob("C23", "C23.g", rel, qualname(fn), "%s = %s ... %s" % (v, ast.unparse(a.value)[:40], ast.unparse(risky)[:40]), tested)
                     if not tested:
                         out.append(Finding("C23", "C23.g", rel, qualname(fn), "%s; %s" % (" ".join(ast.unparse(a).split())[:60], ast.unparse(risky)[:50]), "%s is None when the key is absent and is then used as a container/object: TypeError/AttributeError instead of a textX error" % v, witness="a qualified class name whose qualifier is neither a referenced language nor an imported namespace: [types.Thing]"))
